@@ -469,7 +469,7 @@ fn c18_read_plain_n18() {
 
 // ---- name-bearing types, every octet symbolic, tiny messages ----------------
 
-// @harness props=C18 panics=C18,C01 tier=thorough mem=8 t=3600 fn="Rdata::read,helpers::read_name_rdata,helpers::prepare_to_read_rdata,Name::try_from_compressed,name::wire::parse_compressed_name,Rdata::validate"
+// @harness props=C18 panics=C18,C01 tier=thorough mem=7 t=3600 fn="Rdata::read,helpers::read_name_rdata,helpers::prepare_to_read_rdata,Name::try_from_compressed,name::wire::parse_compressed_name,Rdata::validate"
 //   bound="type NS, any class; message of exactly 3 octets, all octet values; cursor 0..=4; RDLENGTH any u16; unwind 5"
 //   sym="msg:[u8;3], cursor<=4, rdlength:u16, class:u16" stubs="S7"
 #[kani::proof]
@@ -713,7 +713,7 @@ fn c18_read_minfo_n4() {
 
 // ---- the other single-name types --------------------------------------------
 
-// @harness props=C18 panics=C18,C01 tier=thorough mem=8 t=3600 fn="Rdata::read,helpers::read_name_rdata,Name::try_from_compressed,name::wire::parse_compressed_name"
+// @harness props=C18 panics=C18,C01 tier=thorough mem=7 t=3600 fn="Rdata::read,helpers::read_name_rdata,Name::try_from_compressed,name::wire::parse_compressed_name"
 //   bound="type MD (3), any class; message of exactly 3 octets, all octet values; cursor 0..=4; RDLENGTH any u16; unwind 5"
 //   sym="msg:[u8;3], cursor<=4, rdlength:u16, class:u16" stubs="S7"
 #[kani::proof]
@@ -727,7 +727,7 @@ fn c18_read_md_n3() {
     kani::cover!(!s.eom && !s.accepted, "RDATA inside the message rejected");
 }
 
-// @harness props=C18 panics=C18,C01 tier=thorough mem=8 t=3600 fn="Rdata::read,helpers::read_name_rdata,Name::try_from_compressed,name::wire::parse_compressed_name"
+// @harness props=C18 panics=C18,C01 tier=thorough mem=7 t=3600 fn="Rdata::read,helpers::read_name_rdata,Name::try_from_compressed,name::wire::parse_compressed_name"
 //   bound="type MF (4), any class; message of exactly 3 octets, all octet values; cursor 0..=4; RDLENGTH any u16; unwind 5"
 //   sym="msg:[u8;3], cursor<=4, rdlength:u16, class:u16" stubs="S7"
 #[kani::proof]
@@ -741,7 +741,7 @@ fn c18_read_mf_n3() {
     kani::cover!(!s.eom && !s.accepted, "RDATA inside the message rejected");
 }
 
-// @harness props=C18 panics=C18,C01 tier=thorough mem=8 t=3600 fn="Rdata::read,helpers::read_name_rdata,Name::try_from_compressed,name::wire::parse_compressed_name"
+// @harness props=C18 panics=C18,C01 tier=thorough mem=7 t=3600 fn="Rdata::read,helpers::read_name_rdata,Name::try_from_compressed,name::wire::parse_compressed_name"
 //   bound="type CNAME (5), any class; message of exactly 3 octets, all octet values; cursor 0..=4; RDLENGTH any u16; unwind 5"
 //   sym="msg:[u8;3], cursor<=4, rdlength:u16, class:u16" stubs="S7"
 #[kani::proof]
@@ -755,7 +755,7 @@ fn c18_read_cname_n3() {
     kani::cover!(!s.eom && !s.accepted, "RDATA inside the message rejected");
 }
 
-// @harness props=C18 panics=C18,C01 tier=thorough mem=8 t=3600 fn="Rdata::read,helpers::read_name_rdata,Name::try_from_compressed,name::wire::parse_compressed_name"
+// @harness props=C18 panics=C18,C01 tier=thorough mem=7 t=3600 fn="Rdata::read,helpers::read_name_rdata,Name::try_from_compressed,name::wire::parse_compressed_name"
 //   bound="type MB (7), any class; message of exactly 3 octets, all octet values; cursor 0..=4; RDLENGTH any u16; unwind 5"
 //   sym="msg:[u8;3], cursor<=4, rdlength:u16, class:u16" stubs="S7"
 #[kani::proof]
@@ -769,7 +769,7 @@ fn c18_read_mb_n3() {
     kani::cover!(!s.eom && !s.accepted, "RDATA inside the message rejected");
 }
 
-// @harness props=C18 panics=C18,C01 tier=thorough mem=8 t=3600 fn="Rdata::read,helpers::read_name_rdata,Name::try_from_compressed,name::wire::parse_compressed_name"
+// @harness props=C18 panics=C18,C01 tier=thorough mem=7 t=3600 fn="Rdata::read,helpers::read_name_rdata,Name::try_from_compressed,name::wire::parse_compressed_name"
 //   bound="type MG (8), any class; message of exactly 3 octets, all octet values; cursor 0..=4; RDLENGTH any u16; unwind 5"
 //   sym="msg:[u8;3], cursor<=4, rdlength:u16, class:u16" stubs="S7"
 #[kani::proof]
@@ -783,7 +783,7 @@ fn c18_read_mg_n3() {
     kani::cover!(!s.eom && !s.accepted, "RDATA inside the message rejected");
 }
 
-// @harness props=C18 panics=C18,C01 tier=thorough mem=8 t=3600 fn="Rdata::read,helpers::read_name_rdata,Name::try_from_compressed,name::wire::parse_compressed_name"
+// @harness props=C18 panics=C18,C01 tier=thorough mem=7 t=3600 fn="Rdata::read,helpers::read_name_rdata,Name::try_from_compressed,name::wire::parse_compressed_name"
 //   bound="type MR (9), any class; message of exactly 3 octets, all octet values; cursor 0..=4; RDLENGTH any u16; unwind 5"
 //   sym="msg:[u8;3], cursor<=4, rdlength:u16, class:u16" stubs="S7"
 #[kani::proof]
@@ -797,7 +797,7 @@ fn c18_read_mr_n3() {
     kani::cover!(!s.eom && !s.accepted, "RDATA inside the message rejected");
 }
 
-// @harness props=C18 panics=C18,C01 tier=thorough mem=8 t=3600 fn="Rdata::read,helpers::read_name_rdata,Name::try_from_compressed,name::wire::parse_compressed_name"
+// @harness props=C18 panics=C18,C01 tier=thorough mem=7 t=3600 fn="Rdata::read,helpers::read_name_rdata,Name::try_from_compressed,name::wire::parse_compressed_name"
 //   bound="type PTR (12), any class; message of exactly 3 octets, all octet values; cursor 0..=4; RDLENGTH any u16; unwind 5"
 //   sym="msg:[u8;3], cursor<=4, rdlength:u16, class:u16" stubs="S7"
 #[kani::proof]
